@@ -73,6 +73,8 @@ def c06Table : Handler := fun c => do
     let tbl := PdtVerif.Backoff.ofList (tableOf dicts)
     -- translation validation of the flat layer (hypothesis of theorem C06_lookup_checked)
     let flatOk := checkBuilt V sos dicts b
+    -- the hypotheses of theorems C06_flat / C06_lookup / C06_model on this table
+    let hypOk := tableOK dicts
     let T := hist.length
     let specFull := (List.range (T + 1)).map (fun t => (List.range B).map (fun bb =>
       PdtVerif.Backoff.row tbl V (PdtVerif.Backoff.context N sos (col hist bb) t)))
@@ -80,7 +82,7 @@ def c06Table : Handler := fun c => do
       ("build", buffersJ b), ("shape", shapeJ), ("full", full3J full),
       ("chunk_agree", listJ boolJ chunkAgree), ("byidx_agree", boolJ byIdx),
       ("view_rows_ok", boolJ viewOk), ("view_contig", boolJ view.isContig),
-      ("flat_agree", boolJ flatAgree), ("flat_check", boolJ flatOk),
+      ("flat_agree", boolJ flatAgree), ("flat_check", boolJ flatOk), ("table_ok", boolJ hypOk),
       ("idx", listJ (listJ (listJ lpJ)) idxRes),
       ("spec_full", listJ (listJ (listJ optJ')) specFull)])
 
